@@ -3,6 +3,7 @@ import Martian.Regex
 import Martian.LexerId
 import Martian.FormatExp
 import Martian.LexerLRGen
+import Martian.LexerLRSem
 import Martian.Tokenizer
 import Martian.LexerActions
 import Gen.Facts
@@ -145,6 +146,18 @@ def handle (op : String) (args : List String) : Option String :=
       pure (evs ++ " =1 @" ++ toString p.1 ++ ":" ++ toString p.2)
     | .panic => pure (evs ++ " PANIC")
     | .outOfFuel => pure (evs ++ " OUT-OF-FUEL")
+  -- the goyacc model with semantic values vs x-c09's recursive-descent reader, on the tokens of a source
+  | "lrcmp", [s] => do
+    let b ← bytesOfHex s
+    match Martian.FormatExp.lexAll b with
+    | none => pure "nolex"
+    | some ts =>
+      let a := Martian.LexerLR.parseLR ts
+      let r := Martian.FormatExp.parseToks ts
+      let sa := toString (repr a)
+      let sr := toString (repr r)
+      if sa == sr then pure ("same " ++ (if a.isSome then "some" else "none") ++ " " ++ toString ts.length)
+      else pure ("differ LR=" ++ (sa.replace "\n" " ") ++ " READER=" ++ (sr.replace "\n" " "))
   | "failprods", [] => pure (" ".intercalate (Gen.mmFailProds.map toString))
   -- FormatExp.lexAll (C09's reduced tokenizer) vs the full tokenizer model
   | "fxcmp", [s] => do
@@ -256,7 +269,10 @@ def handle (op : String) (args : List String) : Option String :=
     pure (actIntStr (Martian.LexerActions.arrListUnguarded k))
   | "mapdim", [n] => do
     let k ← n.toNat?
-    pure (toString (Martian.LexerActions.mapDim k))
+    pure (actIntStr (Martian.LexerActions.mapDim k))
+  | "mapdim0", [n] => do
+    let k ← n.toNat?
+    pure (toString (Martian.LexerActions.mapDimUnguarded k))
   | _, _ => none
 
 end Driver.C08
